@@ -125,6 +125,10 @@ func demuxDo(k string, frame []byte) string {
 func randChan(r *rand.Rand, k string) string {
 	switch k {
 	case "str":
+		if r.Intn(4) == 0 {
+			// names around the sizes a fixed header buffer or a one-byte length would have (a hex digest is 64 bytes)
+			return hx.Hex(hx.Bytes(r, hx.Pick(r, 31, 32, 33, 54, 55, 56, 62, 63, 64, 65, 127, 128, 129, 255, 256, 257)))
+		}
 		return hx.Hex(hx.Bytes(r, hx.SmallLen(r)))
 	case "varint", "u64":
 		return strconv.FormatUint(hx.EdgeU64(r), 10)
